@@ -185,11 +185,11 @@ def run(ctx):
         "table_obligations": obs,
         "unchecked_obligations": ob_failed,
         "evaluations": total,
-        "distinct_nontrivial": int(meta.get("closed_observed", 0)) + int(meta.get("accept_cases", 0)),
+        "distinct_nontrivial": int(meta.get("distinct_signatures", 0)),
         "rule": "timing: every listener stacking (plain, TLS, PROXY, PROXY+TLS, MITM, PROXY+MITM) x every stall point "
                 "(silent / k bytes / trickle of PROXY v1+v2 header, listener and MITM ClientHello, request head; first idle, "
                 "between requests; slow origin) on the real proxy in-process over TCP; accept: 1..%s stalled peers in each phase, "
-                "then a well-behaved probe; non-trivial = scenarios in which a close was observed + accept scenarios"
+                "then a well-behaved probe; non-trivial/distinct = distinct (stacking, phase, sequence of client event kinds) among the scenarios in which the proxy closed the socket, plus distinct (stacking, peer behaviour, N) accept scenarios"
                 % meta.get("max_stalled_peers"),
         "traces_validated_against_impl": total,
         "model_mismatches": len(bad["M"]) + len(bad["MA"]),
